@@ -15,7 +15,7 @@ FUNCTIONS = ["xgcm.padding:pad", "xgcm.padding:_pad_face_connections", "xgcm.pad
              "xgcm.padding:_maybe_swap_dimension_names", "xgcm.padding:_maybe_rename_grid_positions",
              "xgcm.padding:_get_all_connection_axes", "xgcm.padding:_strip_all_coords", "xgcm.grid:Grid._assign_face_connections"]
 BOUNDS = {
-    "quick": {"tables": "all 8 link kinds, 2 faces with the reciprocal link; chains of 3 faces (all 64 kind pairs that fit)",
+    "quick": {"tables": "all 8 link kinds, 2 faces with the reciprocal link; chains of 3 faces and rings of 2 faces (all 64 kind pairs that fit)",
               "N": [2, 3], "widths": "every (lo,hi) in {0..min(3,N)}^2 on one axis x 3 width pairs on the other, both ways",
               "rules": ["fill (symbolic fill value)", "extend", "periodic"], "inputs": "scalar and both vector components",
               "dims": "face dim first / after an extra dim / between"},
@@ -84,6 +84,11 @@ def cases(tier):
         t = chain_table(list(k2))
         if t is not None:
             multi.append(("chain3", t))
+        # rings of two faces: both junctions join the same two faces, so a face may name the same neighbour (even the
+        # same link triple) on both of its sides
+        t = chain_table(list(k2), ring=True)
+        if t is not None:
+            multi.append(("ring2", t))
     if tier == "thorough":
         for k3 in itertools.product(KINDS, repeat=3):
             t = chain_table(list(k3), ring=True)
